@@ -1,0 +1,39 @@
+//go:build verif
+
+package mathx
+
+import "sync/atomic"
+
+// verif 构建标签下的随机性钩子：强制 Proba 的结果、固定 Unstable 的随机因子。
+const verifEnabled = true
+
+var (
+	verifCoinFn atomic.Value // *func(proba float64) (truth, ok bool)
+	verifRandFn atomic.Value // *func() (r float64, ok bool)
+)
+
+// SetVerifCoin 安装（或传 nil 卸载）TrueOnProba 的覆盖函数。
+func SetVerifCoin(fn func(proba float64) (truth, ok bool)) {
+	verifCoinFn.Store(&fn)
+}
+
+// SetVerifUnstable 安装（或传 nil 卸载）Unstable 使用的 [0,1) 随机数覆盖函数。
+func SetVerifUnstable(fn func() (r float64, ok bool)) {
+	verifRandFn.Store(&fn)
+}
+
+func verifCoin(proba float64) (bool, bool) {
+	p, _ := verifCoinFn.Load().(*func(float64) (bool, bool))
+	if p == nil || *p == nil {
+		return false, false
+	}
+	return (*p)(proba)
+}
+
+func verifRand() (float64, bool) {
+	p, _ := verifRandFn.Load().(*func() (float64, bool))
+	if p == nil || *p == nil {
+		return 0, false
+	}
+	return (*p)()
+}
